@@ -58,7 +58,10 @@ type Program struct {
 }
 
 // Load loads every package of the module rooted at dir.
-func Load(dir string, cfg Config) (*Program, error) {
+func Load(dir string, cfg Config) (*Program, error) { return LoadDir(dir, cfg, 25) }
+
+// LoadDir is Load with an explicit minimum number of module packages (the fixture module has one).
+func LoadDir(dir string, cfg Config, minPkgs int) (*Program, error) {
 	os.Unsetenv("GOWORK")
 	env := append(os.Environ(),
 		"GOFLAGS=-mod=mod", "GOPROXY=off", "GOSUMDB=off", "GOTOOLCHAIN=local", "GOWORK=off")
@@ -94,8 +97,8 @@ func Load(dir string, cfg Config) (*Program, error) {
 		}
 	}
 	sort.Slice(p.Pkgs, func(i, j int) bool { return p.Pkgs[i].PkgPath < p.Pkgs[j].PkgPath })
-	if len(p.Pkgs) < 25 {
-		return nil, fmt.Errorf("load: only %d module packages loaded (expected >= 25)", len(p.Pkgs))
+	if len(p.Pkgs) < minPkgs {
+		return nil, fmt.Errorf("load: only %d module packages loaded (expected >= %d)", len(p.Pkgs), minPkgs)
 	}
 	prog, _ := ssautil.AllPackages(initial, ssa.InstantiateGenerics)
 	prog.Build()
